@@ -403,7 +403,13 @@ def check(spec, ctx):
     for path in spec["paths"]:
         full = root / path
         full.parent.mkdir(parents=True, exist_ok=True)
-        full.write_text(render_file(spec, path, rnd, tree_tail))
+        text = render_file(spec, path, rnd, tree_tail)
+        # a file need not end with a line break: its last line counts all the same
+        if spec["trivia_seed"] % 3 == 0 and (path == "main.top" or spec["trivia_seed"] % 2 == 0):
+            text = text.rstrip("\n")
+            if path == "main.top":
+                ctx.label("main_file_without_final_line_break")
+        full.write_text(text)
     flat_dir = ctx.dir / "flat"
     flat_dir.mkdir()
     (flat_dir / "flat.top").write_text("\n".join(flat + tail) + "\n")
